@@ -327,11 +327,24 @@ func c06Child(a *ChildArgs) {
 		os.MkdirAll(dir, 0755)
 		defer os.RemoveAll(dir)
 		path := dir + "/f.sql"
-		for i := 0; i < a.N; i++ {
+		// what the CLI's own layouts take care of and the library serialisers do not (a listed finding there): aliases
+		// that need their quotes, in any letter case
+		funnelFixed := []string{
+			`SELECT qty AS "order", team AS "group" FROM sales`, `SELECT a AS "Select", b AS "FROM", c AS "End" FROM t`, `SELECT a AS "two words", b AS "x-y" FROM t`,
+			`SELECT COUNT(*) AS "count", MAX(a) AS "max" FROM t GROUP BY b`, `SELECT a AS "order" FROM t ORDER BY a`,
+		}
+		for i := 0; i < a.N+len(funnelFixed); i++ {
 			seed := base + int64(i)*15485863
 			g := gen.New(rand.New(rand.NewSource(seed)), avoid)
-			x := g.Statement(2)
-			sql := gen.Plain(x.Toks)
+			var sql string
+			if i < len(funnelFixed) {
+				if a.Shard != 0 {
+					continue
+				}
+				sql = funnelFixed[i]
+			} else {
+				sql = gen.Plain(g.Statement(2).Toks)
+			}
 			t0, err := gosqlx.Parse(sql)
 			if err != nil {
 				continue
